@@ -1366,6 +1366,26 @@ func (wl *writerLoop) runSym(v mergeVal) *mergeOutcome {
 			continue
 		}
 		if st.ReturnsNil(e.Return, e.State) == "nonnil" {
+			// a sentinel error of the package ("nothing changed") is an outcome of its own:
+			// the batch is not written (error exits roll back, C05/R5), so it counts as a
+			// path on which the point is ignored; any other error is a failed write
+			sentinel := false
+			if n := len(e.Return.Results); n > 0 {
+				if o := kit.ObjOf(info, e.Return.Results[n-1]); o != nil && f.Prog.IsSentinelErr(o) && o.Pkg() == f.Pkg.Types {
+					sentinel = true
+				}
+			}
+			if !sentinel {
+				continue
+			}
+			out.paths++
+			if v.second != 0 {
+				out.second = append(out.second, "|||")
+			}
+			if !seen[""] {
+				seen[""] = true
+				out.fx = append(out.fx, "")
+			}
 			continue
 		}
 		out.paths++
